@@ -201,6 +201,15 @@ CHECKS['C04'] = dict(
     note='Not decided: correctness of chunk merging in the parallel hash-join build, float associativity in SIMD kernels, the cfg(not(parallel)) arms.',
     design='§4 C04')
 
+CHECKS['C30'] = dict(
+    technique='symbolic key/value agreement of the statement cache (T10); state-machine shape rule for the placeholder scanners (quote flag dominates the ? action); exhaustive match tables (T8); dominance rule for the bool-before-int conversion order',
+    text='Decides that the statement cache of Cursor::execute is keyed by exactly the text that was parsed (so calls cannot influence each other '
+         'through it), that every scanner looking for ? tracks quoted strings, that substitute_placeholders renders every SqlValue variant and '
+         'doubles quotes inside string parameters, and that Python bool is recognised before int. Necessary conditions of faithful binding for '
+         'all SQL texts, parameter tuples and call sequences.',
+    note='Not decided: pyo3 extraction semantics, NaN/inf rendering, equality of values read back.',
+    design='§4 C30')
+
 NOT_APPLICABLE = {
     'C01': 'Equality of result multisets with a reference engine is a value-level semantic equivalence over all queries and data; no structural necessary condition beyond those claimed under C06/C21/C24 exists and a static rule cannot stand in for an oracle.',
     'C03': 'Columnar-vs-row agreement is determined by computed values (empty input, NULL handling, sums); a rejected shape falls back safely, so no table-agreement obligation exists whose breach necessarily changes results.',
